@@ -205,7 +205,8 @@ def r1(R, tus):
     for fname in ("sparse_connectedpixels",):
         g = cfront.find_func(tus, fname, SP)
         txt = [estr(e) for st in swalk(g.body) for e in cfront.stmt_exprs(st)]
-        conds = [estr(st.cond) for st in swalk(g.body) if st.k in ("if", "while", "for") and st.cond is not None]
+        defs = cfront.scalar_defs(g)  # jk = j[k]; ... jk ...  reads as j[k]
+        conds = [estr(cfront.esubst(st.cond, defs)) for st in swalk(g.body) if st.k in ("if", "while", "for") and st.cond is not None]
         pj, pi, lab = g.params[2].name, g.params[1].name, g.params[5].name
         left = [c for c in conds if "(%s[p] + 1) == (int)%s[k]" % (pj, pj) in c.replace("(int)%s[p]" % pj, "%s[p]" % pj) or "%s[p]" % pj in c and "+ 1" in c and "== " in c and "%s[p] > 0" % lab in c]
         R.check(len(left) == 1 and "%s[p]" % pi in left[0] and "%s[k]" % pi in left[0], "C11.R1", SP, g.line, fname, "left neighbour: j[p]+1 == j[k], same row, labelled",
@@ -215,7 +216,10 @@ def r1(R, tus):
                 "the walk along the row above no longer stops one column to the left: %s" % skip)
         win = [c for c in conds if "%s[p]" % pj in c and "<=" in c and "+ 1" in c]
         R.check(len(win) == 1 and "%s[k]" % pj in win[0], "C11.R1", SP, g.line, fname, "row-above window ends at j[k] + 1", "the window of the row above is not j-1..j+1: %s" % win)
-        R.check(any(t.replace(" ", "") == "ir=(int)%s[k]-1" % pi or t.replace(" ", "") == "ir=%s[k]-1" % pi for t in txt), "C11.R1", SP, g.line, fname, "ir = i[k] - 1 (row above)", "row above is not i[k]-1")
+        bare = lambda t: t.replace(" ", "").replace("(int)", "").replace("(", "").replace(")", "")
+        rowtests = [c for c in conds if "%s[p]" % pi in c or "%s[pp]" % pi in c]
+        R.shape(bool(rowtests), "C11.R1", SP, fname, "row tests on i[p] / i[pp]")
+        R.check(any("%s[k]-1" % pi in bare(c) for c in rowtests), "C11.R1", SP, g.line, fname, "ir = i[k] - 1 (row above)", "row above is not i[k]-1: %s" % rowtests)
         nm = [s for s in swalk(g.body) if match_pattern(s) is not None]
         R.check(len(nm) == 1 and estr(match_pattern(nm[0])[0]) == "%s[k]" % lab and estr(match_pattern(nm[0])[1]) == "%s[p]" % lab, "C11.R1", SP, g.line, fname,
                 "match(labels[k], labels[p], S) inside the window", "the union of the current pixel with the row above changed")
@@ -315,29 +319,32 @@ def r3(R, tus):
     last_writer = None
     order = []
     stmts = grow[0].then.body if grow[0].then.k == "block" else [grow[0].then]
+    dndefs = cfront.scalar_defs(dn)   # newlength = length * 2; ... S[newlength - 1]  reads as S[length * 2 - 1]
+    _form = reg.form
+    reg_form = lambda e, env: _form(cfront.esubst(e, dndefs), env)
     for s in stmts:
         iv = None
         if s.k == "expr" and s.e.k == "asg" and s.e.a[0].k == "idx" and estr(s.e.a[0].a[0]) == "S":
-            p = reg.form(s.e.a[0].a[1], {})
+            p = reg_form(s.e.a[0].a[1], {})
             iv = (p, p, estr_top(s.e))
         elif s.k == "for":
             h = omp.loop_header(s)
             body = s.body.body if s.body.k == "block" else [s.body]
             if h is not None and len(body) == 1 and body[0].k == "expr" and body[0].e.k == "asg" and estr(body[0].e.a[0]) == "S[%s]" % h[0]:
-                lo, hi = reg.form(h[1], {}), reg.form(h[2], {}) - (0 if h[5] else 1)
+                lo, hi = reg_form(h[1], {}), reg_form(h[2], {}) - (0 if h[5] else 1)
                 iv = (lo, hi, "for %s in [%r,%r]: %s" % (h[0], lo, hi, estr_top(body[0].e)))
         elif s.k == "expr" and s.e.k == "call" and s.e.name == "memset":
             a0 = s.e.a[0]
             while a0.k == "cast":
                 a0 = a0.a[0]
             if a0.k == "un" and a0.op == "&" and a0.a[0].k == "idx" and estr(a0.a[0].a[0]) == "S":
-                lo = reg.form(a0.a[0].a[1], {})
+                lo = reg_form(a0.a[0].a[1], {})
                 nb = s.e.a[2]
                 cnt = None
                 if nb.k == "bin" and nb.op == "*":
                     for side in nb.a:
                         if not any(z.k == "sizeof" for z in ewalk(side)):
-                            cnt = reg.form(side, {})
+                            cnt = reg_form(side, {})
                 if lo is not None and cnt is not None:
                     iv = (lo, lo + cnt - 1, estr_top(s.e))
         if iv is not None:
